@@ -302,6 +302,7 @@ func scenariosFor(tier string) []vrt.Scenario {
 		addRun(2, wholeRun("constant", "1/500ms", 1010*time.Millisecond, 1, 0, 0))
 		addRun(2, wholeRun("users", "", 1010*time.Millisecond, 1, 400*time.Millisecond, 0))
 		addRun(1, wholeRun("constant", "2/500ms", 1010*time.Millisecond, 2, 30*time.Millisecond, 3))
+		addRun(1, wholeRun("constant", "2/500ms", 1010*time.Millisecond, 1, 600*time.Millisecond, 0)) // with dropped iterations
 		// lean: one iteration, the progress tick and the end of the run at the same instant; three deviations
 		addRun(2, wholeRun("constant", "1/1s", 1010*time.Millisecond, 1, 0, 0))
 	} else {
@@ -311,6 +312,7 @@ func scenariosFor(tier string) []vrt.Scenario {
 		addRun(2, wholeRun("constant", "2/500ms", 1010*time.Millisecond, 2, 30*time.Millisecond, 3))
 		addRun(2, wholeRun("constant", "1/500ms", 1500*time.Millisecond, 1, 600*time.Millisecond, 0))
 		addRun(2, wholeRun("users", "", 2010*time.Millisecond, 2, 700*time.Millisecond, 0))
+		addRun(2, wholeRun("constant", "2/500ms", 1010*time.Millisecond, 1, 600*time.Millisecond, 0)) // with dropped iterations
 	}
 	add := func(b int, snaps int, scripts ...string) {
 		sc := component(scripts, snaps)
